@@ -411,7 +411,24 @@ func (fr *Frame) onStack(fn *ssa.Function) bool {
 func (fr *Frame) inline(callee *ssa.Function, ct *Contract, args []Val, reach string, h Heap) []Val {
 	u := fr.u
 	u.inlined[callee.String()] = true
+	// Annotated loops that moved into a new helper: when the caller's contract has loop annotations,
+	// the caller's body no longer has a loop, and the callee is a function the unchanged tree does not
+	// have with exactly that many loops, the annotations (and the caller's lets) follow the loops.
+	// Like the renamed-locals rule this cannot make a wrong program verify: the annotations are
+	// auxiliary, every postcondition is still proved of the code as it stands.
+	moved := false
+	if ct == nil && fr.ct != nil && len(fr.ct.Loops) > 0 && fr.parent == nil && countLoopHeaders(fr.fn) == 0 &&
+		countLoopHeaders(callee) == len(fr.ct.Loops) && !knownOnBaseline(callee.String()) {
+		ct = &Contract{Inline: true, Loops: fr.ct.Loops, Where: fr.ct.Where}
+		moved = true
+		u.assumed[fmt.Sprintf("loop annotations of %s applied to the loops of the new helper %s (the annotated loops moved there)", shortKey(fr.fn.String()), callee.Name())] = true
+	}
 	sub := u.newFrame(callee, ct, fr)
+	if moved {
+		for k, v := range fr.names {
+			sub.names[k] = v
+		}
+	}
 	sub.frameAllowed = fr.frameAllowed
 	sub.frameTargets = fr.frameTargets
 	sub.entryReach = reach
